@@ -151,3 +151,22 @@ def check_against_model(data, model):
             if resolve(fr, rec_at) != mr.resolve():
                 return 'data differs at %d' % fr.pos
     return None
+
+
+def committed_end(data):
+    """Offset just after the last complete transaction that is not still
+    flagged as being committed ('c'): a walk over the transaction headers
+    and their redundant lengths only."""
+    if data[:4] != MAGIC:
+        return 0
+    pos = 4
+    n = len(data)
+    while pos + THDR.size <= n:
+        tid, tlen, status, ul, dl, el = THDR.unpack_from(data, pos)
+        if status == b'c' or tlen < THDR.size + ul + dl + el:
+            break
+        tend = pos + tlen
+        if tend + 8 > n or struct.unpack_from('>Q', data, tend)[0] != tlen:
+            break
+        pos = tend + 8
+    return pos
